@@ -29,6 +29,7 @@ type Cfg struct {
 	DotNot      bool   `json:"dot_notation,omitempty"`
 	FieldSep    string `json:"field_sep,omitempty"`
 	UseNumber   bool   `json:"use_number,omitempty"`
+	Toggle      bool   `json:"toggle_forms,omitempty"` // boolean options are switched with the no-argument (toggle) form of their setter
 }
 
 func defCfg() Cfg { return Cfg{AttrPrefix: "-", KeyPrefix: "#"} }
@@ -93,6 +94,14 @@ func stateDiff() string {
 // applyCfg resets to defaults and applies c.
 func applyCfg(c Cfg) {
 	resetOptions()
+	// sw switches a boolean option away from its default: explicitly, or (c.Toggle) with the no-argument form
+	sw := func(f func(...bool), v bool) {
+		if c.Toggle {
+			f()
+		} else {
+			f(v)
+		}
+	}
 	if c.AttrPrefix != "-" {
 		mxj.SetAttrPrefix(c.AttrPrefix)
 	}
@@ -101,43 +110,43 @@ func applyCfg(c Cfg) {
 		curKeyPrefix = c.KeyPrefix
 	}
 	if c.Lower {
-		mxj.CoerceKeysToLower(true)
+		sw(mxj.CoerceKeysToLower, true)
 	}
 	if c.Snake {
-		mxj.CoerceKeysToSnakeCase(true)
+		sw(mxj.CoerceKeysToSnakeCase, true)
 	}
 	if c.SimpleMap {
-		mxj.DecodeSimpleValuesAsMap(true)
+		sw(mxj.DecodeSimpleValuesAsMap, true)
 	}
 	if c.KeepSpaces {
-		mxj.DisableTrimWhiteSpace(true)
+		sw(mxj.DisableTrimWhiteSpace, true)
 	}
 	if c.SeqNum {
-		mxj.IncludeTagSeqNum(true)
+		sw(mxj.IncludeTagSeqNum, true)
 	}
 	if c.EscEnc && c.EscEncFirst {
-		mxj.XMLEscapeChars(true)
+		sw(mxj.XMLEscapeChars, true)
 	}
 	if c.EscDec {
-		mxj.XMLEscapeCharsDecoder(true)
+		sw(mxj.XMLEscapeCharsDecoder, true)
 	}
 	if c.EscEnc && !c.EscEncFirst {
-		mxj.XMLEscapeChars(true)
+		sw(mxj.XMLEscapeChars, true)
 	}
 	if c.CastInt {
-		mxj.CastValuesToInt(true)
+		sw(mxj.CastValuesToInt, true)
 	}
 	if c.NoFloat {
-		mxj.CastValuesToFloat(false)
+		sw(mxj.CastValuesToFloat, false)
 	}
 	if c.NoBool {
-		mxj.CastValuesToBool(false)
+		sw(mxj.CastValuesToBool, false)
 	}
 	if c.NanInf {
-		mxj.CastNanInf(true)
+		sw(mxj.CastNanInf, true)
 	}
 	if c.CheckValid {
-		mxj.XmlCheckIsValid(true)
+		sw(mxj.XmlCheckIsValid, true)
 	}
 	if c.GoEmpty {
 		mxj.XmlGoEmptyElemSyntax()
@@ -147,7 +156,7 @@ func applyCfg(c Cfg) {
 		mxj.SetCheckTagToSkipFunc(func(s string) bool { return s == k })
 	}
 	if c.DotNot {
-		mxj.LeafUseDotNotation(true)
+		sw(mxj.LeafUseDotNotation, true)
 	}
 	if c.FieldSep != "" {
 		mxj.SetFieldSeparator(c.FieldSep)
